@@ -543,6 +543,10 @@ func sortOperand(rv reflect.Value) *Value {
 	for rv.IsValid() && rv.Kind() == reflect.Interface && !rv.IsNil() {
 		rv = rv.Elem()
 	}
+	if rv.IsValid() && rv.Type() == typeOfValuePtr && !rv.IsNil() {
+		// an item of a list written in the template
+		return rv.Interface().(*Value)
+	}
 	return &Value{val: rv}
 }
 
